@@ -172,7 +172,14 @@ def canon(x):
             n, d = int(x[2][1]), int(x[2][2])
             return [S('lit'), '<float>', [S('f'), '%.11e' % (n / d)]]
         if len(x) == 3 and x[0] == 'q':
-            return [S('q'), '%.11e' % (int(x[1]) / int(x[2]))]
+            # time bounds: exact when the decimal is short (an amount of s, or of ms that Python's correctly rounded
+            # division by 1000.0 represents by the same shortest decimal); a value that needs 16-17 digits (one ulp off)
+            # then shows as a different, approximate form
+            n, d = int(x[1]), int(x[2])
+            digits = len(str(abs(n)).rstrip('0')) if d != 0 else 99
+            if d != 0 and (10 ** 15) % d == 0 and digits <= 15:
+                return [S('q'), f'{n}/{d}']
+            return [S('q'), '%.11e' % (n / d)]
         return [canon(y) for y in x]
     return x
 
